@@ -1,7 +1,7 @@
 (* Extraction of the C10 models: ExtrOcamlBasic only, no Extract Constant /
    Extract Inductive of our own; Z, positive, nat stay Coq's datatypes. *)
 From Coq Require Import ZArith List.
-From PV Require Import Base.U64 C10.C10_Model C10.C10_Engine.
+From PV Require Import Base.U64 C10.C10_Model C10.C10_Engine C10.C10_EngineNG.
 Require Extraction.
 Require Import ExtrOcamlBasic.
-Extraction "c10_model.ml" run_op mk_iovs recv_bufs wire run_engine.
+Extraction "c10_model.ml" run_op mk_iovs recv_bufs wire run_engine run_ng.
